@@ -23,6 +23,11 @@
  * initial value; array accesses in bounds (memory checks on).
  */
 #include "vp_harness.h"
+#ifndef VP_NATIVE
+/* formatting is not under test: the compound's name is an opaque 8-byte buffer */
+#include <stdlib.h>
+int asprintf(char **p, const char *f, ...){ (void)f; *p = malloc(8); return 7; }
+#endif
 #include "parsec/scheduling.c"
 #include "parsec/compound.c"
 #include "parsec/mca/termdet/local/termdet_local_module.c"
